@@ -8,6 +8,7 @@ import (
 	"os"
 	"path/filepath"
 	"sort"
+	"strconv"
 	"strings"
 
 	"golang.org/x/tools/go/packages"
@@ -493,4 +494,26 @@ func (p *Prog) pureTable(fn *types.Func) ([]tableRow, bool) {
 	}
 	pureTables[name] = rows
 	return rows, true
+}
+
+// goAtLeast: the go directive of the analysed module is at least major.minor
+// (loop variables are per-iteration from go 1.22 on).
+func (p *Prog) goAtLeast(major, minor int) bool {
+	data, err := os.ReadFile(filepath.Join(p.Dir, "go.mod"))
+	if err != nil {
+		return false
+	}
+	for _, ln := range strings.Split(string(data), "\n") {
+		f := strings.Fields(ln)
+		if len(f) == 2 && f[0] == "go" {
+			parts := strings.Split(f[1], ".")
+			if len(parts) < 2 {
+				return false
+			}
+			ma, e1 := strconv.Atoi(parts[0])
+			mi, e2 := strconv.Atoi(parts[1])
+			return e1 == nil && e2 == nil && (ma > major || (ma == major && mi >= minor))
+		}
+	}
+	return false
 }
